@@ -212,7 +212,8 @@ Section Facts.
     split; [reflexivity|]. split; [exact Hrd|]. split; [exact Ha|]. split; [now apply eqb_prop|].
     exists h, e, L. split; [reflexivity|]. split; [reflexivity|]. split; [reflexivity|].
     intro Hd. rewrite Hd in Hdata. apply andb_true_iff in Hdata as [H1 H2].
-    split; [now apply list_eqb_eq|now apply Z.leb_le].
+    apply andb_true_iff in H1 as [H0 H1]. apply Z.eqb_eq in H0. apply list_eqb_eq in H1.
+    split; [|now apply Z.leb_le]. rewrite <- H0, Nat2Z.id. exact H1.
   Qed.
 
   Theorem submission_justified : forall obs pre w r hs post,
@@ -237,9 +238,6 @@ Section Facts.
     intro Hdom. destruct (Hd Hdom) as [Hhs Hle]. split; [exact Hhs|]. split; [|exact Hle].
     rewrite Hhs. apply zrange_length.
   Qed.
-
-  Definition epoch_reached (T : Z) (x : world * call) : Prop :=
-    snd x = CEpoch /\ exists e', w_epoch (fst x) = Some e' /\ T <= e'.
 
   Lemma pending_blocks_submission : forall mid m T w2 r2 hs2 post,
       m_pend m = Some T ->
@@ -426,7 +424,9 @@ Section Facts.
       assert (Hlegal : submit_legal m (negb dp) hs = true).
       { unfold Model.C43.submit_legal. rewrite Hp, Hr, Ha, eqb_reflx, Hh, Hee, HL. cbn [isnone andb].
         destruct (Model.C43.in_domain EL e L) eqn:Hdom; [|reflexivity].
-        rewrite (Hd eq_refl), list_eqb_refl. cbn [andb].
+        rewrite (Hd eq_refl), zrange_length, list_eqb_refl.
+        destruct (domain_exact _ _ Hdom) as (_ & _ & _ & _ & _ & _ & D7).
+        rewrite Z2Nat.id, Z.eqb_refl by lia. cbn [andb].
         destruct (domain_exact _ _ Hdom) as (D1 & D2 & D3 & _). apply Z.leb_le. now rewrite <- D3. }
       destruct (w_submit w) eqn:E; cbn [fst snd Model.C43.mon_step]; rewrite Hlegal, E; eexists;
         (split; [reflexivity|]); cbn [inv m_reset m_pend m_ready m_auth]; unfold elig; cbn [m_ready m_auth m_pend]; auto.
@@ -467,6 +467,36 @@ Section Facts.
     assert (Hi : inv SHeight (m_init true)) by (repeat split).
     destruct (accepted_from ws SHeight (m_init true) Hi) as (m' & H & _).
     unfold Model.C43.monitor. now rewrite H.
+  Qed.
+
+  (* every function-level run of the model (what the judge compares with) is accepted too *)
+  Lemma run_fn_accepted_from : forall md ws st m,
+      inv st m -> mon_run m (combine ws (fst (run_fn EL dp md st ws))) <> None.
+  Proof.
+    induction ws as [|w t IH]; intros st m Hi; cbn [run_fn].
+    - cbn. discriminate.
+    - destruct (step_preserves st w m Hi) as (m1 & H1 & H2).
+      destruct (step st w) as [[st' c] r]. cbn [fst snd] in H1, H2.
+      destruct (match r with Some r0 => stop md r0 | None => None end).
+      + cbn [fst combine Model.C43.mon_run]. rewrite H1. destruct t; cbn; discriminate.
+      + specialize (IH st' m1 H2). destruct (run_fn EL dp md st' t) as [tr f].
+        cbn [fst combine Model.C43.mon_run] in *. now rewrite H1.
+  Qed.
+
+  Theorem model_outputs_pass_monitor : forall md ws,
+      monitor (m_init (init_elig md)) (combine ws (fst (run_fn EL dp md (start md) ws))) = true.
+  Proof.
+    intros md ws. unfold Model.C43.monitor.
+    assert (Hi : inv (start md) (m_init (init_elig md))) by (destruct md; repeat split).
+    pose proof (run_fn_accepted_from md ws _ _ Hi) as H.
+    destruct (mon_run _ _); [reflexivity|now elim H].
+  Qed.
+
+  Lemma run_fn_loop : forall ws st, run_fn EL dp MLoop st ws = (run st ws, FNone).
+  Proof.
+    induction ws as [|w t IH]; intro st; cbn [run_fn Model.C43.run]; [reflexivity|].
+    destruct (step st w) as [[st' c] r]. rewrite IH.
+    destruct r as [r|]; reflexivity.
   Qed.
 
   (* ---------------- the model waits for the relay ---------------- *)
@@ -611,6 +641,16 @@ Qed.
 
 Lemma epoch_length_positive : 0 < bitcoinDifficultyEpochLength.
 Proof. reflexivity. Qed.
+
+(* the control loop of the model, presented to the judge as a case, passes the executable property *)
+Lemma model_loop_case_passes_spec : forall EL dp ws, 0 < EL ->
+    spec_ok EL {| c_dp := dp; c_mode := MLoop; c_ws := ws;
+                  c_trace := run EL dp SReady (ws ++ [err_world]); c_res := FNone; c_late := 0 |} = true.
+Proof.
+  intros EL dp ws HEL. unfold spec_ok, script_of. cbn [c_late c_dp c_mode c_ws c_trace c_res init_elig Z.eqb andb].
+  pose proof (model_accepted EL dp HEL (ws ++ [err_world])) as H. unfold monitor, timeline in H.
+  destruct (mon_run EL dp _ _); [reflexivity|discriminate].
+Qed.
 
 (* ------------------------------------------------------------------ non-vacuity *)
 Definition okw (h e : Z) : world := mkw 1 1 1 h e 3 true true.
